@@ -94,7 +94,7 @@ def run(ctx):
         raise ToolFailure("model drift: %d of %d walks of the real walk.Generic satisfy the protocol but differ from Walk.tla's walk" % (drift, len(hists)))
     # 3. the real cypher walkers over real models, against the reflection tree
     t2 = os.path.join(ctx.work, "models.ndjson")
-    ctx.grammar_corpus(stride=12 if quick else 1, skstride=4 if quick else 1)
+    ctx.grammar_corpus(stride=12 if quick else 4, skstride=4 if quick else 2)
     ctx.vh(["walk", "models", "--out", t2, "--seed", str(ctx.seed), "--reacts", "4" if quick else "24", "--nils", "2" if quick else "10"], timeout=3000)
     n_ok, rejected = validate_histories(ctx, AREA, "WalkTrace", t2, chunk_events=150000, max_cand=30, parallel=10)
     ctx.cov["traces_validated_against_impl"] += n_ok
